@@ -299,8 +299,12 @@ func tmpPath(ext string) string {
 		caseDir = d
 	}
 	caseSeq++
+	// four paths per format, reused round robin and NOT removed: most renders go to a path that still
+	// holds the output of an earlier case (longer or shorter), as re-running a model does
 	p := filepath.Join(caseDir, fmt.Sprintf("f%d.%s", caseSeq%4, ext))
-	os.Remove(p)
+	if _, err := os.Stat(p); err == nil {
+		ev.Get().Add("sink-file-existed-before-the-render", 1)
+	}
 	return p
 }
 
